@@ -37,6 +37,7 @@ FLOOR = 64.0
 AFFINE_REAL = 4096.0
 AFFINE_CSTEP = 64.0
 K_DIR = 1e4
+C_X = {}
 OVERFLOW = 1e150
 METHODS = ['central', 'forward', 'backward', 'complex', 'multicomplex']
 GRIDS = [(1, 2), (2, 1), (2, 2), (2, 3), (3, 2), (2, 4), (4, 2), (1, 5), (3, 1)]
@@ -92,7 +93,7 @@ def c03_case(draw):
         else:
             base = draw(mv.mv_cases(containers=('0d',), kinds=KINDS))
     case = dict(base, api=api, method=method, order=order, xform=xform, grid=grid,
-                step=draw(mv.step_specs(method)), full_output=True)
+                step=draw(mv.step_specs(method, kinds=mv.GEO_KINDS)), full_output=True)
     if api == 'directional':
         n = base['prog']['n']
         v = [draw(mv.coefs(-1.0, 1.0)) if draw(st.integers(0, 3)) else 0.0 for _ in range(n)]
@@ -111,6 +112,11 @@ def difference_forming(method, order):
     return True
 
 
+def c_x(method, xcfg):
+    """C_X of the extrapolated-order clause, or None where it is not asserted."""
+    return C_X.get('%s|%s' % (method, xcfg))
+
+
 def stencil_width(method):
     return 2.0 if method == 'multicomplex' else 1.0
 
@@ -122,7 +128,7 @@ def builder(nd, cls, f, case, full_output, **extra):
         kw = dict(method=case['method'], order=case['order'], full_output=full_output)
         kw.update(extra)
         kw.update(opts)
-        return cls(f, step=step, **kw)
+        return mv.geo_fixup(cls(f, step=step, **kw), case['step'])
     return build
 
 
@@ -176,11 +182,12 @@ class C03(Prop):
     def _configure(self, ctx, nd, cls, f, case, x_arr, an, full_output, width, what):
         with ctx.lib('no-exception', 'constructing %s' % what):
             res = mv.fit_steps(builder(nd, cls, f, case, full_output), x_arr, an.reach_limit(), width,
-                               case['step'].get('u', 0.0))
+                               case['step'].get('u', 0.0), frac=mv.geo_frac(case['step']))
         if isinstance(res, str):
             ctx.skip(res)
         d, steps, ratio, scale, base = res
         self._base = base
+        self._ratio = ratio
         if an.max_majorant(width * max(float(np.max(t)) for t in steps)) > OVERFLOW:
             ctx.skip('function values exceed 1e150 on the sampled region (overflow)')
         rule_len = int(np.size(d.fd_rule.rule(ratio)))
@@ -200,6 +207,7 @@ class C03(Prop):
         cfg = 'default-order%d' % order if case['step']['kind'] == 'default' else 'user'
         tol = self.table.get('%s|1|%s|%s' % (method, bucket, cfg), self.table.get('%s|1|%s' % (method, bucket)))
         hs = np.array([np.ravel(s) for s in steps])            # steps x n
+        amp_rule = max(1.0, float(np.sum(np.abs(d.fd_rule.rule(self._ratio)))))
         hmin, hmax = hs.min(axis=0), hs.max(axis=0)
         bounds = np.full(exact.shape, np.inf)
         sensitive = False
@@ -248,16 +256,40 @@ class C03(Prop):
                     # rounding of the function values at the reported step: eps * |values| / h_f (when every
                     # sample rounds to the same float the library legitimately returns 0 +- 0, C02 (a))
                     Mf = float(an.majorant(e, (j,), [min(w * hf, an.reach_limit((j,)), mv.R_CAP)])[0])
+                    # the reported step is the largest of the t+1 steps a Richardson-extrapolated estimate combines
+                    hft = max(hf / max(float(abs(self._ratio)), 1.0) ** max(0, min(2, k_est - 1)), hmin[j])
                     if math.isfinite(Mf):
-                        floor += FLOOR * EPS * 2.0 * Mf / hf
+                        floor += FLOOR * EPS * 2.0 * Mf / hft
                 excess = max(err - floor, 0.0)
                 ratio = excess / S if S > 0 else (0.0 if excess == 0 else math.inf)
                 ctx.track('err/S|%s|1|%s|%s' % (method, bucket, cfg), ratio,
                           dict(prog=mv.describe(case['prog']), x=case['x'], e=e, j=j, order=order,
                                step=case['step'], lib=lib[e, j], exact=exact[e, j], S=S))
+                if k_est >= 2:
+                    ux = mv.extrapolated_unit(an, 'Jacobian', method, order, e, (j,), [hs[:, j]], k_est, self._ratio, w,
+                                              diff_forming, amp_rule)
+                    if ux is not None and ux[0] > 0 and math.isfinite(ux[0]):
+                        U, which, t = ux
+                        rx = excess / U
+                        xcfg = 'geo' if case['step']['kind'] == 'geo' else 'default' if cfg != 'user' else 'user'
+                        xlabel = '%s|%s|%s%s' % (method, bucket, xcfg,
+                                                 '|mcx-order>=4' if method == 'multicomplex' and order >= 4 else '')
+                        ctx.track('x-order err/U|%s' % xlabel, rx,
+                                  dict(prog=mv.describe(case['prog']), x=case['x'], e=e, j=j, order=order,
+                                       step=case['step'], lib=lib[e, j], exact=exact[e, j], U=U, unit=which, k_est=k_est))
+                        cx = c_x(method, xcfg)
+                        if cx is not None and not CALIBRATE:
+                            if xcfg == 'geo':
+                                ctx.count('x-order asserted on a short geometric user sequence|%s' % method)
+                            bounds[e, j] = cx * U + floor
+                            if rx > cx:
+                                raise Violation('extrapolated-order', '%s[%d,%d]=%r exact %r: |err|=%.3g > C_X(%g)*U(%.3g, %s '
+                                                'unit, t=%d, k_est=%d)+floor(%.3g) (method=%s order=%d)'
+                                                % (what, e, j, lib[e, j], exact[e, j], err, cx, U, which, t, k_est, floor,
+                                                   method, order), e=e, j=j, ratio=rx, k_est=k_est)
                 if tol is None or CALIBRATE:
                     continue
-                bounds[e, j] = tol * S + floor
+                bounds[e, j] = min(bounds[e, j], tol * S + floor)
                 if ratio > tol:
                     raise Violation('envelope', '%s[%d,%d]=%r exact %r: |err|=%.3g > tol(%g)*S_1(%.3g)+floor(%.3g) '
                                     '(method=%s order=%d)' % (what, e, j, lib[e, j], exact[e, j], err, tol, S,
@@ -422,9 +454,10 @@ class C03(Prop):
         def build(scale, base):
             step, opts = mv.make_step(nd, case['step'], method, scale, base)
             made_holder['kw'] = dict(step=step, method=method, order=order, **opts)
-            return nd.Derivative(lambda t: 0.0, n=1, **made_holder['kw'])
+            return mv.geo_fixup(nd.Derivative(lambda t: 0.0, n=1, **made_holder['kw']), case['step'])
         with ctx.lib('no-exception', 'constructing Derivative for directionaldiff'):
-            res = mv.fit_steps(build, np.asarray(0.0), an.reach_limit(), w, case['step'].get('u', 0.0))
+            res = mv.fit_steps(build, np.asarray(0.0), an.reach_limit(), w, case['step'].get('u', 0.0),
+                               frac=mv.geo_frac(case['step']))
         if isinstance(res, str):
             ctx.skip(res)
         d0, steps0, ratio0, scale0, _base0 = res
